@@ -44,6 +44,23 @@ def library():
         A.func("sumto", [("n", INT)], INT, A.block([A.if_(B("<=", V("n"), L(0)), A.block([A.ret(L(0))])), A.decl("keep", INT, B("*", V("n"), L(2))),
                                                     A.decl("sub", INT, A.call("sumto", [B("-", V("n"), L(1))])), A.estmt(A.asg(V("gi"), B("+", V("gi"), V("keep")))),
                                                     A.ret(B("+", V("keep"), V("sub")))]), True),
+        # loops inside and after one another with break / continue taken, globals written between them
+        A.func("scan", [("n", INT)], INT, A.block([
+            A.decl("c", INT, L(0)),
+            A.for_(A.decl("i", INT, L(0)), B("<", V("i"), V("n")), A.inc("i", "+", False), A.block([
+                A.for_(A.decl("j", INT, L(0)), B("<", V("j"), V("n")), A.inc("j", "+", False), A.block([
+                    A.if_(B(">", V("j"), V("i")), A.block([A.BREAK])), A.estmt(A.asg(V("c"), B("+", V("c"), L(1))))])),
+                A.if_(B("==", V("i"), L(1)), A.block([A.CONTINUE])),
+                A.estmt(A.asg(V("gi"), B("+", V("gi"), V("c"))))])),
+            A.estmt(A.asg(V("gf"), B("+", V("gf"), V("c")))),
+            A.decl("k", INT, L(0)),
+            A.while_(B("<", V("k"), L(5)), A.block([A.estmt(A.asg(V("k"), B("+", V("k"), L(1)))), A.if_(B(">", V("k"), L(2)), A.block([A.BREAK]))])),
+            A.estmt(A.asg(A.idx(V("ga"), L(2)), B("+", A.idx(V("ga"), L(2)), V("k")))),
+            A.ret(B("+", B("*", V("c"), L(10)), V("k")))]), True),
+        # two private overloads whose parameters have the same name
+        A.func("put", [("v", INT)], INT, A.block([A.estmt(A.asg(V("gi"), B("+", V("gi"), V("v")))), A.ret(L(1))])),
+        A.func("put", [("v", FLOAT)], INT, A.block([A.estmt(A.asg(V("gf"), B("+", V("gf"), V("v")))), A.ret(L(2))])),
+        A.func("puts", [("a", INT)], INT, A.block([A.decl("r", INT, A.call("put", [V("a")])), A.decl("q", INT, A.call("put", [A.lit_f(3, 1)])), A.ret(B("+", B("*", V("r"), L(10)), V("q")))]), True),
         # a call without arguments that writes a global, between a store to that global and a load of it
         A.func("inc10", [], INT, A.block([A.estmt(A.asg(V("gi"), B("+", V("gi"), L(10)))), A.ret(V("gi"))])),
         A.func("stale", [("a", INT)], INT, A.block([A.estmt(A.asg(V("gi"), V("a"))), A.estmt(A.call("inc10", [])), A.estmt(A.asg(V("gf"), V("gi"))), A.ret(V("gi"))]), True),
@@ -67,6 +84,8 @@ def library():
         {"k": "invoke", "f": "copyarr", "args": {"a": A.enc(3, INT)}},
         {"k": "invoke", "f": "sumto", "args": {"n": A.enc(3, INT)}},
         {"k": "invoke", "f": "stale", "args": {"a": A.enc(2, INT)}},
+        {"k": "invoke", "f": "scan", "args": {"n": A.enc(2, INT)}},
+        {"k": "invoke", "f": "puts", "args": {"a": A.enc(3, INT)}},
         {"k": "invoke", "f": "pick", "args": {"a": A.enc(6, INT)}},
         {"k": "set", "g": "gi", "v": A.enc(7, INT)},
         {"k": "set", "g": "ga", "v": A.enc([1, 2, 3], A.arr(INT, [3]))},
@@ -147,7 +166,7 @@ def run(ctx, args):
     src = A.pp(prog)
     lib = ctx.tmp("vmhistory-lib.json")
     lib.write_text(json.dumps({"prog": prog, "ops": ops, "init": init, "vms": 2}))
-    depth = 3          # 22^3 = 10 648 histories; depth 4 would be 234 256 (the thorough tier goes deeper by simulation instead)
+    depth = 3          # 26^3 = 17 576 histories; depth 4 would be 456 976 (the thorough tier goes deeper by simulation instead)
     cfg = (f"CONSTANTS Depth = {depth}\nINIT HInit\nNEXT HNext\nINVARIANT NamesKept\nINVARIANT Report\n"
            "PROPERTY Isolation\nPROPERTY Persistence\nPROPERTY FreshLocals\nCHECK_DEADLOCK FALSE\n")
     res = ctx.tlc("VMHistory", cfg, env={"BATCH": str(lib)}, timeout=6000)
